@@ -32,6 +32,30 @@ def sweep(ctx, n):
             outside, inside = observers(cls, src, rng, nps)
             pos, ori = nps.uniform(-2, 2, 3), R.random(rng=nps)
             src.position, src.orientation = pos, ori
+            # half of the sources are evaluated next to a sibling in the same call (same class, geometry stretched along
+            # one axis so that many numbers coincide): the integral a source's field equals does not depend on its batch mates
+            mate = None
+            if (rng.random() < 0.5 or cls == "TriangularMesh") and cls != "Dipole":
+                stretch = np.ones(3)
+                stretch[rng.randrange(3)] = nps.uniform(1.5, 3) if rng.random() < 0.4 else nps.uniform(0.2, 0.5)
+                if getattr(src, "vertices", None) is not None:
+                    mate = src.copy(vertices=np.asarray(src.vertices) * stretch) if cls != "TriangularMesh" else \
+                        magpy.magnet.TriangularMesh(vertices=np.asarray(src.vertices) * stretch, faces=src.faces, polarization=src.polarization, position=pos, orientation=ori)
+                elif cls in ("Cuboid",):
+                    mate = src.copy(dimension=np.asarray(src.dimension) * stretch)
+                elif cls in ("Cylinder", "CylinderSegment"):
+                    dd = np.array(src.dimension, float)
+                    dd[1 if cls == "Cylinder" else 2] *= stretch.max()
+                    mate = src.copy(dimension=dd)
+                else:
+                    mate = src.copy(diameter=src.diameter * stretch.max())
+
+            def evaluate(f, p):
+                if mate is None:
+                    return f(src, p)
+                order = [mate, src] if i % 4 < 2 else [src, mate]
+                return f(order, p)[order.index(src)]
+
             for kind, loc in (("outside", outside), ("inside", inside)):
                 if loc is None:
                     continue
@@ -39,8 +63,8 @@ def sweep(ctx, n):
                 n1 = 96 if kind == "inside" else 64
                 Hq = ori.apply(reference_H(src, cls, loc, n=n1))
                 Hq_coarse = ori.apply(reference_H(src, cls, loc, n=(2 * n1) // 3))
-                H = src.getH(glob)
-                B = src.getB(glob)
+                H = evaluate(magpy.getH, glob)
+                B = evaluate(magpy.getB, glob)
                 Bq = mu_0 * Hq + (ori.apply(src.polarization) if (kind == "inside" and cls in MAGNETS) else 0)
                 scH = np.max(np.linalg.norm(Hq, axis=1)) + 1e-300
                 # quadrature accuracy near/inside bodies: estimated from two node counts
